@@ -38,3 +38,33 @@ Definition u8_zeros (n : Z) : result (list Z) :=
   if n <? 0 then Err ValueError else Ok (repeat 0 (Z.to_nat n)).
 
 Definition zsum (l : list Z) : Z := fold_left Z.add l 0.
+
+(* GenomicPositionOffsets as the source declares it (masks are arrays of bytes) *)
+Record kgpo := mkKGpo {
+  kg_range : range; kg_alt_length : Z;
+  kg_pos_offsets : list (Z * Z); kg_del : list Z; kg_shift : list Z;
+  kg_alt_offsets : list (Z * Z); kg_ins : list Z }.
+
+(* array_utils.get_prev_index(a, i, value): j = i - 1; while j >= 0: if a[j] == value: return j; j -= 1 - the first access raises
+   IndexError when i - 1 is beyond the array *)
+Fixpoint u8_prev_nat (a : list Z) (v : Z) (j : nat) : option Z :=     (* j - 1, ..., 0 *)
+  match j with
+  | O => None
+  | S j' => match nth_error a j' with
+            | Some x => if x =? v then Some (Z.of_nat j') else u8_prev_nat a v j'
+            | None => u8_prev_nat a v j'
+            end
+  end.
+Definition u8_prev_index (a : list Z) (i v : Z) : result (option Z) :=
+  if (0 <? i) && (zlen a <? i) then Err IndexError else Ok (u8_prev_nat a v (Z.to_nat i)).
+
+(* array_utils.get_next_index(a, i, value): a.index(value, i + 1), None when absent; a negative start counts from the end, clipped to 0 *)
+Fixpoint u8_next_from (k : Z) (a : list Z) (lo v : Z) : option Z :=
+  match a with
+  | [] => None
+  | x :: a' => if (lo <=? k) && (x =? v) then Some k else u8_next_from (k + 1) a' lo v
+  end.
+Definition u8_next_index (a : list Z) (i v : Z) : result (option Z) :=
+  let s := i + 1 in
+  let lo := if s <? 0 then Z.max 0 (s + zlen a) else s in
+  Ok (u8_next_from 0 a lo v).
